@@ -122,16 +122,18 @@ pub fn stages(id: &str) -> Vec<Stage> {
             st(C20 { params: Params::default().hint_heavy(), stage: "main", max_ops: 40 }, 10_000, 400_000, Release),
         ],
         "C17" => vec![
-            st(C17 { stage: "solve", kind: "solve", max_tape: 900 }, 400, 8_000, Release),
-            st(C17 { stage: "cpp-containers", kind: "cpp", max_tape: 260 }, 2_000, 40_000, Release),
-            st(C17 { stage: "rust-containers", kind: "rust", max_tape: 260 }, 2_000, 40_000, Release),
+            st(C17 { id: "C17", stage: "solve", kind: "solve", max_tape: 900 }, 400, 8_000, Release),
+            st(C17 { id: "C17", stage: "cpp-containers", kind: "cpp", max_tape: 260 }, 2_000, 40_000, Release),
+            st(C17 { id: "C17", stage: "rust-containers", kind: "rust", max_tape: 260 }, 2_000, 40_000, Release),
         ],
         "C18" => vec![
             st(C18 { stage: "main", max_ops: 250 }, 4_000, 150_000, Release),
+            st(C17 { id: "C18", stage: "asan", kind: "c18", max_tape: 1500 }, 0, 10_000, Release),
         ],
         "C19" => vec![
             st(C19 { stage: "main", max_ops: 60 }, 40_000, 2_000_000, Release),
             st(C19 { stage: "debug", max_ops: 60 }, 10_000, 300_000, Debug),
+            st(C17 { id: "C19", stage: "asan", kind: "c19", max_tape: 700 }, 0, 40_000, Release),
         ],
         _ => vec![],
     }
